@@ -2,7 +2,7 @@
 from harness.common import Case, hx, tx_to_line, line_to_tx, toks_str, Fields
 from harness import gen as G
 
-KINDS = 'ms'
+KINDS = 'gms'
 RULE = ('transactions of 1..8 inputs and 1..8 outputs; every input index valid for the hash type; spent scriptPubKeys and output scripts '
         'of 0..70000 bytes incl. 252/253/255/256/65535/65536; amounts 0..2^63-1; seven hash types; key path and script path with leaf '
         'scripts of 1..70000 bytes. non-trivial: >= 2 inputs and (hash type != default or index > 0 or a script >= 253 bytes)')
@@ -57,7 +57,8 @@ def cases(ctx):
                 ctx.count(f'ht-{ht:02x}-ext{ext}')
                 big = any(isinstance(t, str) and not t.startswith('OP_') and len(t) >= 490
                           for s in spks + [leaf] + [o.script_pubkey.script for o in tx.outputs] for t in s)
-                yield Case(f'dig_v1 {line} {i} {sp} {ext} {toks_str(leaf)} {ht}', 'ms' if dom else 'm',
+                small = len(line) + len(sp) < 20000       # the generated code is interpreted, not compiled
+                yield Case(f'dig_v1 {line} {i} {sp} {ext} {toks_str(leaf)} {ht}', (('g' if small else '') + 'ms') if dom else ('gm' if small else 'm'),
                            nontrivial=n >= 2 and (ht != 0 or i > 0 or big), tag='v1', domain=dom)
     for _ in range(ctx.n(50, 2500)):
         tx = G.gen_tx(rng, names, kind='segwit', max_in=4, max_out=4, min_out=1, big=False)
@@ -77,8 +78,14 @@ def cases(ctx):
     n = len(tx.inputs)
     sp = ' '.join([str(n)] + [toks_str(['OP_1'])] * n) + ' ' + ' '.join([str(n)] + ['5'] * n)
     for ht in (4, 0x84, 256, 0x41):
-        yield Case(f'dig_v1 {tx_to_line(tx)} 0 {sp} 0 0 {ht}', 'm', nontrivial=True, tag='undefined-type', domain=False)
-    yield Case(f'dig_v1 {tx_to_line(tx)} 0 {sp.replace(" 5", " -5")} 0 0 0', 'm', nontrivial=True, tag='neg-amount', domain=False)
+        yield Case(f'dig_v1 {tx_to_line(tx)} 0 {sp} 0 0 {ht}', 'gm', nontrivial=True, tag='undefined-type', domain=False)
+    yield Case(f'dig_v1 {tx_to_line(tx)} 0 {sp.replace(" 5", " -5")} 0 0 0', 'gm', nontrivial=True, tag='neg-amount', domain=False)
+    # out-of-range indices with ANYONECANPAY / SINGLE: the IndexError paths of the generated code and of the model
+    for ht, idx in ((0x81, n), (0x83, n + 3), (3, 7), (0x83, 0)):
+        yield Case(f'dig_v1 {tx_to_line(tx)} {idx} {sp} 0 0 {ht}', 'gm', nontrivial=True, tag='bad-index', domain=False)
+    # fewer spent scripts / amounts than inputs under ANYONECANPAY
+    sp_short = ' '.join(['1', toks_str(['OP_1'])]) + ' ' + ' '.join(['1', '5'])
+    yield Case(f'dig_v1 {tx_to_line(tx)} {n - 1} {sp_short} 1 {toks_str(["OP_1"])} {0x81}', 'gm', nontrivial=True, tag='short-spent', domain=False)
 
 
 def impl(op, a, ctx):
